@@ -2,7 +2,7 @@
 (***************************************************************************)
 (* Trace specification for C12: operations executed on the REAL            *)
 (* dynamiccache.Cache (scripted informer map) are replayed into the        *)
-(* reference model DynCache.tla (intended semantics, Rollback = TRUE); the *)
+(* reference model DynCache.tla (intended semantics, Rollback = "full"); the *)
 (* abstract state the harness observed after each call (owner sets from    *)
 (* OwnersForGKV, informers present in the map, handlers attached) must     *)
 (* equal the model's and satisfy the property invariants itself.           *)
@@ -17,7 +17,7 @@ Range(s) == { s[i] : i \in DOMAIN s }
 
 Owners == { Trace[i].args.owner : i \in { j \in DOMAIN Trace : Trace[j].ev = "C12Op" } } \ {""}
 Kinds  == {"k1", "k2", "k3"}
-Rollback == TRUE
+Rollback == "full"
 MaxFail == 0
 
 VARIABLES l, model, obs, lw
